@@ -150,29 +150,11 @@ func (w *worker) executeWide(n int, hist []Op, verbose bool) (r execResult) {
 			return
 		}
 	}
-	// the allocation probe opened one descriptor in the model as well; the key is taken before it
-	delete(m.fds, func() int32 {
-		var mx int32 = -1
-		// the probe's descriptor is the one path_open returned last: recompute as the lowest free before it
-		for fd := int32(3); ; fd++ {
-			if m.fds[fd] == nil {
-				mx = fd
-				break
-			}
-		}
-		// lowest free AFTER the probe is above the probe's number only if the probe filled the lowest hole;
-		// simpler and exact: undo by scanning for the entry created last (kept in lastProbe)
-		_ = mx
-		return lastOpened(m)
-	}())
+	// the allocation probe opened one descriptor in the model as well; the state key is without it
+	delete(m.fds, m.lastFd)
 	say("  probes agree; open descriptors %s", wideKey(m))
 	r.key = wideKey(m)
 	return
-}
-
-// lastOpened returns the descriptor number of the most recently created fdent (tracked by apply order).
-func lastOpened(m *Model) int32 {
-	return m.lastFd
 }
 
 type wideStats struct {
